@@ -126,10 +126,10 @@ class Whitener(Transformer):
         power = (self.alpha - 1) / 2
         svd_kwargs = {"random_state": self.random_state, "solver": "full"}
         T = _fractional_matrix_power(C, power, **svd_kwargs)
-        try:
-            Tinv = np.linalg.inv(T)
-        except np.linalg.LinAlgError:
-            Tinv = np.linalg.pinv(T)
+        # T is singular whenever C is rank deficient (directions cut off by the
+        # fractional power); the opposite power on the retained directions is its
+        # pseudo-inverse and equals the inverse otherwise
+        Tinv = _fractional_matrix_power(C, -power, **svd_kwargs)
         return T, Tinv
 
     def transform(self, X: DataArray) -> DataArray:
